@@ -40,7 +40,7 @@ type Case struct {
 	Token     string     `json:"token"`  // absent garbage valid wrong-imprint untrusted-tsa no-eku codesigning-eku noncritical-eku ca-as-tsa keyenc-only
 	GenTime   int64      `json:"genTime"`
 	Accuracy  int64      `json:"accuracy"`
-	TSARev    string     `json:"tsaRev"` // ok revoked unknown error
+	TSARev    string     `json:"tsaRev"` // ok revoked revoked-later unknown error
 	TSAction  string     `json:"tsAction"`
 	EdgeLabel string     `json:"edge"`
 	Warm      string     `json:"warm,omitempty"` // earlier verification on the same verifier: "", plain, token, expired
@@ -131,7 +131,9 @@ func model(c Case) verdicts {
 		}
 	}
 	switch c.TSARev {
-	case "revoked":
+	case "revoked", "revoked-later":
+		// revoked-later: the TSA certificate is revoked with an invalidity date after the token's own
+		// time; a token's time is the TSA's own claim, so nothing it says can predate its revocation
 		v.tsFail = true
 	case "unknown", "error":
 		if !v.tsFail {
@@ -217,6 +219,9 @@ func check(c Case) (string, string, verdicts) {
 	ts.Put("ca", "decoy", tsaRoot.Cert, otherTSARoot.Cert) // TSA roots in a ca store must never help
 	tsRev := &mocks.Revocation{}
 	switch c.TSARev {
+	case "revoked-later":
+		tsRev.Results = []result.Result{result.ResultRevoked}
+		tsRev.OKIfSigningTimeGiven = true
 	case "revoked":
 		tsRev.Results = []result.Result{result.ResultRevoked}
 	case "unknown":
@@ -414,7 +419,7 @@ func drawCase(rt *rapid.T) Case {
 				c.GenTime = ref
 			}
 			if c.Token == "valid" {
-				c.TSARev = rp.Pick(rt, "tsaRev", "ok", "ok", "ok", "revoked", "unknown", "error")
+				c.TSARev = rp.Pick(rt, "tsaRev", "ok", "ok", "ok", "revoked", "revoked-later", "unknown", "error")
 			}
 		} else {
 			c.EdgeLabel = ""
